@@ -30,9 +30,12 @@ def run(ctx):
             for (t, bb) in lay:
                 part = f + ".part"
                 big = thorough and t * (1 << bb) <= 256       # the key-switching key has nin * t * 2^basebit * (nout+1) words: full-size dimensions only where that fits
-                nin = "1,2,3,9" + (",17" if thorough else "") + (",500" if big else "")
-                nout = "1,3,8,9" + (",23" if thorough else ",13") + (",630" if big else "")
-                rc, err = table.run_harness(ctx, exe, ["ks", "--t", t, "--bb", bb, "--nin", nin, "--nout", nout, "--samples", 200 if thorough else 40, "--seed", ctx.seed + t * 37 + bb], part)
+                nin = "1,2,3,9" + (",17" if thorough else "")
+                nout = "1,3,8,9" + (",23" if thorough else ",13")
+                rc, err = table.run_harness(ctx, exe, ["ks", "--t", t, "--bb", bb, "--nin", nin, "--nout", nout, "--samples", 100 if thorough else 40, "--seed", ctx.seed + t * 37 + bb], part)
+                if rc == 0 and big:          # full-size dimensions: few samples (a row carries the whole mask)
+                    out.write(open(part).read())
+                    rc, err = table.run_harness(ctx, exe, ["ks", "--t", t, "--bb", bb, "--nin", "500", "--nout", "630", "--samples", 6, "--seed", ctx.seed + t * 41 + bb], part)
                 if rc != 0:
                     ctx.violation("h_lwe ks (%d,%d) %s build died rc=%s %s" % (t, bb, kind, rc, err[-200:]), key="h_lwe ks crash (%d,%d) %s" % (t, bb, kind))
                     continue
